@@ -39,6 +39,8 @@ def run(hist):
                 objs.append(c.with_cookies({ev["n"]: ev["v"]}))
             elif o == "with_timeout":
                 objs.append(c.with_timeout(httpx.Timeout(TIMES[ev["t"]])))
+            elif o == "set_token":
+                c.token = ev["k"]
             elif o == "get":
                 c.get_httpx_client() if m == "s" else c.get_async_httpx_client()
             elif o == "enter":
@@ -71,7 +73,7 @@ def run(hist):
                         cookies = dict(p.strip().split("=", 1) for p in r.headers.get("cookie", "").split(";") if "=" in p)
                         t = r.extensions.get("timeout", {}).get("read")
                         last = {"res": "sent", "hdrs": {n: r.headers.get(n, "-") for n in ("h1", "h2")}, "cks": {n: cookies.get(n, "-") for n in ("h1", "h2")}, "arg": cookies.get("ck", "-"),
-                                "auth": r.headers.get("authorization") == "Bearer tok", "authraw": r.headers.get("authorization"),
+                                "auth": {None: "-", "Bearer tok": "tok", "Bearer tok2": "tok2"}.get(r.headers.get("authorization"), "other"), "authraw": r.headers.get("authorization"),
                                 "time": {None: "t0", 1.0: "t1", 2.0: "t2", 5.0: "tu"}.get(t, str(t))}
                 except RuntimeError as e:
                     last = {"res": "raised", "why": str(e)[:80]}
